@@ -19,7 +19,7 @@ MANIFEST = dict(
     category='exploration',
     design_ref='DESIGN.md §3 C01, §2.2-2.4',
     technique='deviation-bounded exhaustive enumeration of WN-LMF documents (features, shapes x BATCH_SIZE, payloads, extensions) on the real add/query path vs a reference model',
-    text='Abstract documents for LMF 1.0-1.3 are derived from a maximal and a minimal document by every single optional-feature deviation (thorough: every pair), every repeatable slot at 0..4 items crossed with BATCH_SIZE 1/2/3/1000, every string slot x every payload of a nasty-character alphabet, multi-lexicon files and every documented extension pattern; each is written by an independent serializer, added with wn.add and the complete public-API transcript (restricted and default mode) is compared with the transcript the reference model derives from the document. Exhaustive within the stated deviation bound.',
+    text='Abstract documents for LMF 1.0-1.3 are derived from a maximal and a minimal document by every single optional-feature deviation (thorough: every pair), every repeatable slot at 0..4 items crossed with BATCH_SIZE 1/2/3/1000, every string slot x every payload of a nasty-character alphabet, multi-lexicon files and every documented extension pattern; each is written by an independent serializer, added with wn.add and the complete public-API transcript (restricted and default mode) is compared with the transcript the reference model derives from the document. Exhaustive within the stated deviation bound. What is installed before an extension document arrives is read completely (restricted and default mode) and compared first, in the same process; the extension feature space of 1.3 is also supplied through lmf.load + wn.add_lexical_resource.',
     note='Own XML writer; ids limited to XML-name-like strings; <=4 items per list; <=2 simultaneous deviations; tie-ranked orders (extension senses/forms/members) compared as sets.',
 )
 
